@@ -53,6 +53,46 @@
 //@ item canonical.rs struct AuthParams
 //@ end
 
+/// the literal constants of canonical.rs denote the names the spec uses
+pub proof fn lemma_params_literals()
+    ensures //# C19 C05 C02 name=literal_constants
+        AUTHORIZATION.spec_bytes() == H_AUTHORIZATION(),
+        X_AMZ_ALGORITHM.spec_bytes() == Q_ALGORITHM(),
+        X_AMZ_CREDENTIAL.spec_bytes() == Q_CREDENTIAL(),
+        X_AMZ_DATE.spec_bytes() == Q_DATE(),
+        X_AMZ_DATE_LOWER.spec_bytes() == H_X_AMZ_DATE(),
+        DATE.spec_bytes() == H_DATE(),
+        X_AMZ_SECURITY_TOKEN.spec_bytes() == Q_SECURITY_TOKEN(),
+        X_AMZ_SECURITY_TOKEN_LOWER.spec_bytes() == H_X_AMZ_SECURITY_TOKEN(),
+        X_AMZ_SIGNED_HEADERS.spec_bytes() == Q_SIGNED_HEADERS(),
+        X_AMZ_SIGNATURE.spec_bytes() == SIG(),
+        AWS4_HMAC_SHA256.spec_bytes() == ALGO(),
+        CREDENTIAL@ == K_CREDENTIAL(),
+        SIGNATURE@ == K_SIGNATURE(),
+        SIGNED_HEADERS@ == K_SIGNED_HEADERS(),
+        AWS4_HMAC_SHA256_BYTES@ == ALGO(),
+        "host".spec_bytes() == HOST(),
+        ":authority".spec_bytes() == AUTHORITY(),
+{
+    reveal_strlit("authorization"); assert(AUTHORIZATION@ =~= seq!['a', 'u', 't', 'h', 'o', 'r', 'i', 'z', 'a', 't', 'i', 'o', 'n']); vstd::utf8::is_ascii_chars_encode_utf8(AUTHORIZATION@); assert(AUTHORIZATION.spec_bytes() =~= H_AUTHORIZATION());
+    reveal_strlit("X-Amz-Algorithm"); assert(X_AMZ_ALGORITHM@ =~= seq!['X', '-', 'A', 'm', 'z', '-', 'A', 'l', 'g', 'o', 'r', 'i', 't', 'h', 'm']); vstd::utf8::is_ascii_chars_encode_utf8(X_AMZ_ALGORITHM@); assert(X_AMZ_ALGORITHM.spec_bytes() =~= Q_ALGORITHM());
+    reveal_strlit("X-Amz-Credential"); assert(X_AMZ_CREDENTIAL@ =~= seq!['X', '-', 'A', 'm', 'z', '-', 'C', 'r', 'e', 'd', 'e', 'n', 't', 'i', 'a', 'l']); vstd::utf8::is_ascii_chars_encode_utf8(X_AMZ_CREDENTIAL@); assert(X_AMZ_CREDENTIAL.spec_bytes() =~= Q_CREDENTIAL());
+    reveal_strlit("X-Amz-Date"); assert(X_AMZ_DATE@ =~= seq!['X', '-', 'A', 'm', 'z', '-', 'D', 'a', 't', 'e']); vstd::utf8::is_ascii_chars_encode_utf8(X_AMZ_DATE@); assert(X_AMZ_DATE.spec_bytes() =~= Q_DATE());
+    reveal_strlit("x-amz-date"); assert(X_AMZ_DATE_LOWER@ =~= seq!['x', '-', 'a', 'm', 'z', '-', 'd', 'a', 't', 'e']); vstd::utf8::is_ascii_chars_encode_utf8(X_AMZ_DATE_LOWER@); assert(X_AMZ_DATE_LOWER.spec_bytes() =~= H_X_AMZ_DATE());
+    reveal_strlit("date"); assert(DATE@ =~= seq!['d', 'a', 't', 'e']); vstd::utf8::is_ascii_chars_encode_utf8(DATE@); assert(DATE.spec_bytes() =~= H_DATE());
+    reveal_strlit("X-Amz-Security-Token"); assert(X_AMZ_SECURITY_TOKEN@ =~= seq!['X', '-', 'A', 'm', 'z', '-', 'S', 'e', 'c', 'u', 'r', 'i', 't', 'y', '-', 'T', 'o', 'k', 'e', 'n']); vstd::utf8::is_ascii_chars_encode_utf8(X_AMZ_SECURITY_TOKEN@); assert(X_AMZ_SECURITY_TOKEN.spec_bytes() =~= Q_SECURITY_TOKEN());
+    reveal_strlit("x-amz-security-token"); assert(X_AMZ_SECURITY_TOKEN_LOWER@ =~= seq!['x', '-', 'a', 'm', 'z', '-', 's', 'e', 'c', 'u', 'r', 'i', 't', 'y', '-', 't', 'o', 'k', 'e', 'n']); vstd::utf8::is_ascii_chars_encode_utf8(X_AMZ_SECURITY_TOKEN_LOWER@); assert(X_AMZ_SECURITY_TOKEN_LOWER.spec_bytes() =~= H_X_AMZ_SECURITY_TOKEN());
+    reveal_strlit("X-Amz-SignedHeaders"); assert(X_AMZ_SIGNED_HEADERS@ =~= seq!['X', '-', 'A', 'm', 'z', '-', 'S', 'i', 'g', 'n', 'e', 'd', 'H', 'e', 'a', 'd', 'e', 'r', 's']); vstd::utf8::is_ascii_chars_encode_utf8(X_AMZ_SIGNED_HEADERS@); assert(X_AMZ_SIGNED_HEADERS.spec_bytes() =~= Q_SIGNED_HEADERS());
+    reveal_strlit("X-Amz-Signature"); assert(X_AMZ_SIGNATURE@ =~= seq!['X', '-', 'A', 'm', 'z', '-', 'S', 'i', 'g', 'n', 'a', 't', 'u', 'r', 'e']); vstd::utf8::is_ascii_chars_encode_utf8(X_AMZ_SIGNATURE@); assert(X_AMZ_SIGNATURE.spec_bytes() =~= SIG());
+    reveal_strlit("AWS4-HMAC-SHA256"); assert(AWS4_HMAC_SHA256@ =~= seq!['A', 'W', 'S', '4', '-', 'H', 'M', 'A', 'C', '-', 'S', 'H', 'A', '2', '5', '6']); vstd::utf8::is_ascii_chars_encode_utf8(AWS4_HMAC_SHA256@); assert(AWS4_HMAC_SHA256.spec_bytes() =~= ALGO());
+    assert(CREDENTIAL@ =~= K_CREDENTIAL());
+    assert(SIGNATURE@ =~= K_SIGNATURE());
+    assert(SIGNED_HEADERS@ =~= K_SIGNED_HEADERS());
+    assert(AWS4_HMAC_SHA256_BYTES@ =~= ALGO());
+    reveal_strlit("host"); assert("host"@ =~= seq!['h', 'o', 's', 't']); vstd::utf8::is_ascii_chars_encode_utf8("host"@); assert("host".spec_bytes() =~= HOST());
+    reveal_strlit(":authority"); assert(":authority"@ =~= seq![':', 'a', 'u', 't', 'h', 'o', 'r', 'i', 't', 'y']); vstd::utf8::is_ascii_chars_encode_utf8(":authority"@); assert(":authority".spec_bytes() =~= AUTHORITY());
+}
+
 // ---- spec: signed-header requirements (C05) ----
 pub open spec fn HOST() -> Seq<u8> { seq![0x68u8, 0x6f, 0x73, 0x74] }
 pub open spec fn AUTHORITY() -> Seq<u8> { seq![0x3au8, 0x61, 0x75, 0x74, 0x68, 0x6f, 0x72, 0x69, 0x74, 0x79] }
@@ -67,14 +107,6 @@ pub open spec fn requirements_met(signed: Seq<Seq<u8>>, h: QMap, always: Seq<Seq
 
 /// `trim_ascii` / `trim_ascii_start` / `trim_ascii_end` (canonical.rs, copied from std, slice patterns are outside Verus's subset):
 /// NOT extracted; contract assumed here and checked by the bounded Kani harness trim_ascii_bounded (inputs up to 6 bytes).
-pub open spec fn is_ws(b: u8) -> bool { b == 0x20 || b == 0x09 || b == 0x0a || b == 0x0c || b == 0x0d }
-pub open spec fn trim_ws_start(s: Seq<u8>) -> Seq<u8>
-    decreases s.len()
-{ if s.len() > 0 && is_ws(s[0]) { trim_ws_start(s.drop_first()) } else { s } }
-pub open spec fn trim_ws_end(s: Seq<u8>) -> Seq<u8>
-    decreases s.len()
-{ if s.len() > 0 && is_ws(s.last()) { trim_ws_end(s.drop_last()) } else { s } }
-pub open spec fn trim_ws(s: Seq<u8>) -> Seq<u8> { trim_ws_end(trim_ws_start(s)) }
 #[verifier::external_body]
 pub fn trim_ascii(bytes: &[u8]) -> (r: &[u8])
     ensures r@ == trim_ws(bytes@)
@@ -85,12 +117,116 @@ impl AuthParams {
 }
 
 impl CanonicalRequest {
+    /// the first value of a request header, if the header is present (C19: "the first X-Amz-Date header in preference to any Date header,
+    /// and the first security-token header")
+    pub open spec fn first_header(&self, name: Seq<u8>) -> Option<Seq<u8>> {
+        if self.hview().contains_key(name) && self.hview()[name].len() > 0 { Some(self.hview()[name][0]) } else { None }
+    }
+    pub open spec fn header_date(&self) -> Option<Seq<u8>> {
+        if self.first_header(H_X_AMZ_DATE()) is Some { self.first_header(H_X_AMZ_DATE()) } else { self.first_header(H_DATE()) }
+    }
+    /// what the Authorization-header carrier yields for the header value `hdr` (rules 6a-6d)
+    pub open spec fn header_carrier_ok(&self, hdr: Seq<u8>, p: AuthParams) -> bool {
+        let t = trim_ws(hdr);
+        let params = if first_index(t, 0x20, 0) < t.len() { split_first(t, 0x20).1 } else { Seq::<u8>::empty() };
+        let pieces = split(params, 0x2c);
+        let m = auth_header_params(pieces, pieces.len() as int)->Some_0;
+        &&& p.builder.credential is Some && p.builder.credential->Some_0@ == latin1(m[K_CREDENTIAL()])
+        &&& p.builder.signature is Some && p.builder.signature->Some_0@ == latin1(m[K_SIGNATURE()])
+        &&& is_sorted_names(p.signed(), Seq::new(split(m[K_SIGNED_HEADERS()], 0x3b).len(), |i: int| str_bytes(latin1(split(m[K_SIGNED_HEADERS()], 0x3b)[i]))))
+        &&& self.header_date() is Some && p.timestamp_str@ == latin1(self.header_date()->Some_0)
+        &&& (self.first_header(H_X_AMZ_SECURITY_TOKEN()) is None ==> p.builder.session_token is None)
+        &&& (self.first_header(H_X_AMZ_SECURITY_TOKEN()) is Some ==> p.builder.session_token == Some(Some(p.builder.session_token->Some_0->Some_0))
+                && p.builder.session_token->Some_0->Some_0@ == latin1(self.first_header(H_X_AMZ_SECURITY_TOKEN())->Some_0))
+        &&& p.builder.request_timestamp is None && p.builder.canonical_request_sha256 is None
+    }
+    /// rules 6a, 6b, 6d: when the header carrier is refused
+    pub open spec fn header_carrier_fails(&self, hdr: Seq<u8>) -> bool {
+        let t = trim_ws(hdr);
+        let alg = if first_index(t, 0x20, 0) < t.len() { split_first(t, 0x20).0 } else { t };
+        let params = if first_index(t, 0x20, 0) < t.len() { split_first(t, 0x20).1 } else { Seq::<u8>::empty() };
+        let pieces = split(params, 0x2c);
+        let mo = auth_header_params(pieces, pieces.len() as int);
+        ||| alg != ALGO()
+        ||| mo is None
+        ||| !mo->Some_0.contains_key(K_CREDENTIAL()) || !mo->Some_0.contains_key(K_SIGNATURE()) || !mo->Some_0.contains_key(K_SIGNED_HEADERS())
+        ||| self.header_date() is None
+    }
+
 //@ fn canonical.rs impl CanonicalRequest :: get_auth_parameters_from_auth_header
 //@ props C08 C19 C13 C02
 //@ ret r
-//@ attr #[verifier::external_body] // TEMP
+//@ attr #[verifier::rlimit(60)]
+//   (the parameter `auth_header` is shadowed by its trimmed version; renamed so that loop invariants can still name the parameter)
+//@ replace 1 `let auth_header = trim_ascii(auth_header);` => `let auth_header_t = trim_ascii(auth_header);`
+//@ replace 1 `auth_header.splitn(2, |c| *c == b' ').collect::<Vec<&'a [u8]>>()` => `bytes_splitn2(auth_header_t, b' ')`
+//@ replace 1 `algorithm != AWS4_HMAC_SHA256_BYTES` => `bytes_ne(algorithm, AWS4_HMAC_SHA256_BYTES)`
+//   (Verus for-loops do not support `continue`, and closure-driven `split` is outside its subset: the loop over the materialised pieces
+//    is desugared to an indexed while loop by two declared rewrites)
+//@ replace 1 `for parameter_untrimmed in parameters.split(|c| *c == b',')` => `let vk_pieces = bytes_split_to_vec(parameters, b','); let mut vk_idx: usize = 0; while vk_idx < vk_pieces.len()`
+//@ replace 1 `let parameter = trim_ascii(parameter_untrimmed);` => `let parameter_untrimmed = vk_pieces[vk_idx]; vk_idx += 1; let parameter = trim_ascii(parameter_untrimmed);`
+//@ replace 1 `parameter.splitn(2, |c| *c == b'=').collect::<Vec<&'a [u8]>>()` => `bytes_splitn2(parameter, b'=')`
+//@ replace 1 `parameter_map.insert(parts[0], parts[1]);` => `bytes_map_insert(&mut parameter_map, parts[0], parts[1]);`
+//@ replace 1 `parameter_map.get(CREDENTIAL)` => `bytes_map_get(&parameter_map, CREDENTIAL)`
+//@ replace 1 `parameter_map.get(SIGNATURE)` => `bytes_map_get(&parameter_map, SIGNATURE)`
+//@ replace 1 `parameter_map.get(SIGNED_HEADERS)` => `bytes_map_get(&parameter_map, SIGNED_HEADERS)`
+//@ replace 1 `signed_headers.split(|c| *c == b';').map(latin1_to_string).collect()` => `bytes_split_latin1(signed_headers, b';')`
+//@ replace 1 `signed_headers.sort();` => `sort_strings(&mut signed_headers);`
 //@ spec
     requires self.wf()
+    ensures
+        self.header_carrier_fails(auth_header@) ==> r is Err && r->Err_0 is IncompleteSignature, //# C13 C19 name=rules_6a_6b_6d_incomplete_signature
+        !self.header_carrier_fails(auth_header@) ==> r is Ok && self.header_carrier_ok(auth_header@, r->Ok_0), //# C19 C02 C13 name=last_parameter_first_date_first_token
+//@ bodystart
+    broadcast use axiom_contains_str_key, axiom_maps_str_key_to_value, axiom_string_of_str_bytes, axiom_string_key_model;
+    proof { lemma_params_literals(); }
+//@ before 1 `let mut parameter_map = HashMap::new();`
+    let ghost t = trim_ws(auth_header@);
+    let ghost pieces = split(parameters@, 0x2c);
+    proof {
+        reveal_strlit("");
+        assert(parameters@ == (if first_index(t, 0x20, 0) < t.len() { split_first(t, 0x20).1 } else { Seq::<u8>::empty() }));
+    }
+//@ before 1 `for parameter_untrimmed in parameters.split(|c| *c == b',')`
+    proof { assert(bmap(parameter_map@) =~= BMap::empty()); }
+//@ loop 1
+        invariant
+            pieces == split(parameters@, 0x2c),
+            t == trim_ws(auth_header@),
+            parameters@ == (if first_index(t, 0x20, 0) < t.len() { split_first(t, 0x20).1 } else { Seq::<u8>::empty() }),
+            vk_pieces@.len() == pieces.len(),
+            forall|i: int| 0 <= i < vk_pieces@.len() ==> (#[trigger] vk_pieces@[i])@ == pieces[i],
+            0 <= vk_idx <= vk_pieces@.len(),
+            auth_header_params(pieces, vk_idx as int) == Some(bmap(parameter_map@)), //# C19 name=last_occurrence_wins_fold
+        decreases vk_pieces@.len() - vk_idx
+//@ after 1 `let parameter = trim_ascii(parameter_untrimmed);`
+        let ghost idx = vk_idx - 1;
+        proof { assert(parameter@ == trim_ws(pieces[idx])); }
+//@ before 1 `return Err(SignatureError::IncompleteSignature(format!(<NL>                    "'{}' not a valid key=value pair`
+                proof { lemma_apm_none_mono(pieces, idx + 1, pieces.len() as int); }
+//@ before 1 `let mut missing_messages = Vec::new();`
+    let ghost m = bmap(parameter_map@);
+    proof {
+        assert(auth_header_params(pieces, pieces.len() as int) == Some(m));
+        assert(self.hview().contains_key(H_X_AMZ_DATE()) == self.headers@.contains_key(string_of_bytes(H_X_AMZ_DATE())));
+        assert(self.hview().contains_key(H_DATE()) == self.headers@.contains_key(string_of_bytes(H_DATE())));
+        assert(self.hview().contains_key(H_X_AMZ_SECURITY_TOKEN()) == self.headers@.contains_key(string_of_bytes(H_X_AMZ_SECURITY_TOKEN())));
+    }
+//@ before 1 `signed_headers.sort();`
+    proof {
+        if m.contains_key(K_SIGNED_HEADERS()) {
+            assert(vals_bytes(signed_headers@) =~= Seq::new(split(m[K_SIGNED_HEADERS()], 0x3b).len(), |i: int| str_bytes(latin1(split(m[K_SIGNED_HEADERS()], 0x3b)[i]))));
+        }
+    }
+//@ before 1 `Ok(AuthParams {`
+    proof {
+        assert(builder.credential is Some && builder.credential->Some_0@ == latin1(m[K_CREDENTIAL()]));
+        assert(builder.signature is Some && builder.signature->Some_0@ == latin1(m[K_SIGNATURE()]));
+        assert(self.header_date() is Some && timestamp_str@ == latin1(self.header_date()->Some_0));
+        assert(builder.request_timestamp is None && builder.canonical_request_sha256 is None);
+        assert(self.first_header(H_X_AMZ_SECURITY_TOKEN()) is None ==> builder.session_token is None);
+        assert(is_sorted_names(vals_bytes(signed_headers@), Seq::new(split(m[K_SIGNED_HEADERS()], 0x3b).len(), |i: int| str_bytes(latin1(split(m[K_SIGNED_HEADERS()], 0x3b)[i])))));
+    }
 //@ end
 //@ fn canonical.rs impl CanonicalRequest :: get_auth_parameters_from_query_parameters
 //@ props C08 C19 C13 C02
